@@ -20,7 +20,7 @@ GATES = ["mon.C07.get", "mon.C07.roundtrip_abs", "mon.C07.roundtrip_rel", "C07.e
          "C07.relaxed_miss_first", "C07.relaxed_miss_middle", "C07.relaxed_miss_last", "C07.ignorecase_hit", "C07.sep_other", "C07.wildcard_chars_in_names", "C07.after_mutation", "C07.option_attributes_reassigned", "C07.tree_with_symlinks", "C07.tuple_valued_pathattr", "C07.falsy_nodes", "C07.int_valued_pathattr"]
 
 _CLS = {}
-KINDS = ("Node", "AnyNode", "NM", "LM", "FalsyNode", "FalsyAny")
+KINDS = ("Node", "AnyNode", "NM", "LM", "FalsyNode", "FalsyAny", "ListNode")
 
 
 def node_class(kind, sep):
@@ -28,7 +28,7 @@ def node_class(kind, sep):
 
     key = (kind, sep)
     if key not in _CLS:
-        base = {"Node": F.Node, "AnyNode": F.AnyNode, "NM": F.NM, "LM": F.LM, "FalsyNode": F.FalsyNode, "FalsyAny": F.FalsyAny}[kind]
+        base = {"Node": F.Node, "AnyNode": F.AnyNode, "NM": F.NM, "LM": F.LM, "FalsyNode": F.FalsyNode, "FalsyAny": F.FalsyAny, "ListNode": F.ListNM}[kind]
         body = {"separator": sep}
         if kind == "LM":
             body["__slots__"] = ()
